@@ -140,6 +140,15 @@ func afEvalEnv(v ssa.Value, atom func(ssa.Value) (string, bool), depth int, env 
 			}
 			return out
 		}
+		// conversions between the two time representations are the identity on the time line
+		if callee := staticCallee(x); callee != nil && len(x.Call.Args) == 1 {
+			switch cname(callee) {
+			case "AsTime", "NewTimestampFromTime":
+				if callee.Pkg != nil && (strings.HasSuffix(callee.Pkg.Pkg.Path(), "/otelstorage") || strings.HasSuffix(callee.Pkg.Pkg.Path(), "/pcommon")) {
+					return afEvalEnv(x.Call.Args[0], atom, depth+1, env)
+				}
+			}
+		}
 		// a small first-party helper with one result: the value all its returns agree on
 		// (a zero result on some path is "absent", as for a phi)
 		if callee := staticCallee(x); callee != nil && callee.Blocks != nil && len(callee.Blocks) <= 12 && depth < 8 &&
